@@ -370,6 +370,11 @@ def getstate(w, d):
     if d[:1] == b"\x01":
         if len(d) != 2 or d[1] not in w.hashes:
             raise SW(0x6B87)
+        swap = getattr(w, "state_swap", None)
+        if swap and swap[0] == d[1] and swap[1] in w.hashes:
+            # one-shot: a stale / misrouted frame - the answer to ANOTHER hash query
+            w.state_swap = None
+            return bytes([0x80, 0x20, 0x01, swap[1]]) + w.hashes[swap[1]]
         return bytes([0x80, 0x20, 0x01, d[1]]) + w.hashes[d[1]]
     if d == b"\x02":
         n = w.difficulty
